@@ -88,6 +88,10 @@ func (c *Conv) Init(n *onnx.NodeProto) error {
 
 // Apply applies the conv operator.
 func (c *Conv) Apply(inputs []tensor.Tensor) ([]tensor.Tensor, error) {
+	// Work on a copy: defaults derived from these inputs must not persist on the operator.
+	conv := *c
+	c = &conv
+
 	x := inputs[0]
 	kernel := inputs[1]
 	bias := inputs[2]
